@@ -51,10 +51,20 @@ func conditioningMethodReturn(
 
 	defineArgTs := getEvaluatedDefineArgs(m, class, methodT)
 
+	// the idx-th declared return type; the unconditioned type when the call
+	// has more arguments (or the parameter more variants) than return types
+	pick := func(idx int) *base.T {
+		variants := methodT.GetVariants()
+		if idx >= len(variants) {
+			return methodT
+		}
+
+		return &variants[idx]
+	}
+
 	for _, defineArgT := range defineArgTs {
 		if defineArgT.HasDefault() {
-			variants := methodT.GetVariants()
-			return &variants[len(removeBlockTypeArgs(evaluatedArgs))]
+			return pick(len(removeBlockTypeArgs(evaluatedArgs)))
 		}
 
 		if defineArgT.IsUnionType() {
@@ -63,8 +73,7 @@ func conditioningMethodReturn(
 					isAny := variant.IsAnyType() || argT.IsAnyType()
 
 					if variant.GetType() == argT.GetType() || (isAny) {
-						variants := methodT.GetVariants()
-						return &variants[idx]
+						return pick(idx)
 					}
 				}
 			}
@@ -76,8 +85,7 @@ func conditioningMethodReturn(
 			isAny := defineArgT.IsAnyType() || argT.IsAnyType()
 
 			if defineArgT.GetType() == argT.GetType() || (isAny) {
-				variants := methodT.GetVariants()
-				return &variants[idx]
+				return pick(idx)
 			}
 		}
 	}
